@@ -22,6 +22,7 @@ import (
 	"encoding/binary"
 	"errors"
 	"fmt"
+	"math/rand"
 	"regexp"
 	"sort"
 	"strconv"
@@ -354,6 +355,9 @@ type hflow struct {
 	mixedFC bool     // image measured by offset references on a UEFI image
 	layKind string      // how the range slices lie in memory (gen.go: layouts)
 	tails   map[int]int // shared arrays: unused elements behind the last window
+	multi     bool     // volumes with several generated files (files.go)
+	fileKinds []string // ... what was built
+	passes    []passKind // the runs made over the one log, in order (passes.go)
 }
 
 type measureAct struct{ datas []types.References }
@@ -639,7 +643,8 @@ type pstep struct {
 	actor   int // -1 = nil
 	hasCode bool
 	code    []pref
-	meas    []pref
+	meas    []pref   // the references of all MeasuredData entries (the harness' own flattening)
+	datas   [][]pref // ... per entry
 	issues  []int
 }
 
@@ -688,7 +693,13 @@ func (f *hflow) project(res *runResult, hp *heapProj) ([]pstep, map[issueKey]boo
 			ps.hasCode = true
 			ps.code = f.projRefs(st.ActorCode.References, hp)
 		}
-		ps.meas = f.projRefs(st.MeasuredData.References(), hp)
+		ps.datas = [][]pref{}
+		ps.meas = []pref{}
+		for _, d := range st.MeasuredData {
+			one := f.projRefs(d.References, hp)
+			ps.datas = append(ps.datas, one)
+			ps.meas = append(ps.meas, one...)
+		}
 		for n, is := range st.Issues {
 			ps.issues = append(ps.issues, i*100+n)
 			issues[issueKey{i, n}] = is
@@ -703,6 +714,7 @@ func (f *hflow) project(res *runResult, hp *heapProj) ([]pstep, map[issueKey]boo
 type oref struct {
 	key    int // type-name rank (actors validator text) or artifact identity (final coverage)
 	nomap  bool
+	phys   bool        // biosimage.PhysMemMapper (only recorded for the merged measurements)
 	ranges [][2]uint64 // start, end as printed / End()
 }
 
@@ -906,6 +918,34 @@ func hpstepsLit(ps []pstep) string {
 	return gal.List(s)
 }
 
+func rstepsLit(ps []pstep) string {
+	s := make([]string, len(ps))
+	for i, p := range ps {
+		code := "None"
+		if p.hasCode {
+			code = "(Some " + hprefsLit(p.code) + ")"
+		}
+		ds := make([]string, len(p.datas))
+		for k, d := range p.datas {
+			ds[k] = hprefsLit(d)
+		}
+		s[i] = fmt.Sprintf("(%s, %s, %s, %s)", optZ(p.actor), code, gal.List(ds), gal.IntList(p.issues))
+	}
+	return gal.List(s)
+}
+
+func nodesLit(ns []fnode) string {
+	s := make([]string, len(ns))
+	for i, n := range ns {
+		t := make([]string, len(n.secs))
+		for k, x := range n.secs {
+			t[k] = fmt.Sprintf("%d", x)
+		}
+		s[i] = fmt.Sprintf("(%s, %s, %s)", gal.U(n.off), gal.U(n.n), gal.List(t))
+	}
+	return gal.List(s)
+}
+
 func optZ(v int) string {
 	if v < 0 {
 		return "None"
@@ -1045,7 +1085,14 @@ func (f *hflow) descr() map[string]interface{} {
 	if f.layKind != "" {
 		d["slice_layout"] = f.layKind
 	}
-	d["validators"] = "one log; ValidatorActorsAreProtected, ValidatorFinalCoverageIsComplete, ValidatorNoIssues (validator.All()), then the first two again"
+	runs := []string{}
+	for _, k := range f.passes {
+		runs = append(runs, k.String())
+	}
+	d["runs_over_the_one_log"] = runs
+	if len(f.fileKinds) > 0 {
+		d["uefi_files_built"] = f.fileKinds
+	}
 	if f.uefi {
 		ex := []string{}
 		for _, x := range f.exec {
@@ -1087,169 +1134,34 @@ func miniFV(total int, secType byte) []byte {
 
 // ---------- one case ----------
 
-// stageObs: one run of a validator over the log.
-type stageObs struct {
-	kind     int // 0 = ValidatorActorsAreProtected, 1 = ValidatorFinalCoverageIsComplete
-	pass     int
-	panicked bool
-	iss      []oissue
-	post     [][]hrange // the backing arrays afterwards
-	changed  bool       // ... differ from before
-	foreign  string     // a write that is not an in-place sort of a slice
-	snap     []string   // what the log says afterwards
-}
-
-// unexplainedWrite looks at what one validator run did to the memory behind the
-// log.  One kind of write is accounted for: permuting the ranges inside a slice of
-// the log (in-place sort).  Returns a description of the first other write (e.g.
-// an append into the spare capacity of a slice of the log), or "".
-func unexplainedWrite(pre, post [][]hrange, slots []slot) string {
-	multiset := func(h [][]hrange, s slot) string {
-		v := append([]hrange(nil), h[s.arr][s.off:s.off+s.n]...)
-		sort.Slice(v, func(i, j int) bool {
-			if v[i].Off != v[j].Off {
-				return v[i].Off < v[j].Off
-			}
-			return v[i].Len < v[j].Len
-		})
-		return fmt.Sprint(v)
-	}
-	for a := range pre {
-		for p := range pre[a] {
-			if pre[a][p] == post[a][p] {
-				continue
-			}
-			ok := false
-			for _, s := range slots {
-				if s.arr != a || p < s.off {
-					continue
-				}
-				if p < s.off+s.n && multiset(pre, s) == multiset(post, s) {
-					ok = true // the slice was permuted
-				}
-			}
-			if !ok {
-				return fmt.Sprintf("element %d of backing array %d changed from %#x+%#x to %#x+%#x", p, a, pre[a][p].Off, pre[a][p].Len, post[a][p].Off, post[a][p].Len)
-			}
-		}
-	}
-	return ""
-}
-
-func (s stageObs) name() string {
-	return fmt.Sprintf("%s (pass %d over the same log)", [...]string{"ValidatorActorsAreProtected", "ValidatorFinalCoverageIsComplete"}[s.kind], s.pass)
-}
-
-func runCase(c *gal.Ctx, f *hflow) {
-	res := f.run()
-	rank := f.ranks()
-	hp := buildHeap(res.log)
-	psteps, logIssues := f.project(res, hp)
-	ctx := context.Background()
-
-	// what the model gets as the result of UEFIFiles(...).Data: the harness' own
-	// knowledge of the image it built
-	filesLit := "None"
-	if f.img != nil && f.uefi {
-		var fr []pref
-		if len(f.exec) > 0 {
-			p := pref{art: f.artIndex(f.img.sa), mapper: biosimage.PhysMemMapper{}}
-			for _, x := range f.exec {
-				p.ranges = append(p.ranges, hrange{x.Off + fourGiB - f.img.size, x.Len})
-			}
-			fr = []pref{p}
-		}
-		filesLit = "(Some " + prefsLit(fr) + ")"
-	}
-
-	h0 := hp.contents()
-	snap0 := f.snapshot(res.log)
-	smallSpare := false // some slice with fewer than two ranges has spare capacity
-	for _, r := range logSlices(res.log) {
-		if len(r) < 2 && cap(r) > len(r) {
-			smallSpare = true
-		}
-		if len(r) > 12 {
-			// sort.Slice is insertion sort (stable) only up to 12 elements; the models
-			// (and the exact comparison of the arrays) rely on that order
-			panic(fmt.Sprintf("c10: the generator produced a range slice of %d elements", len(r)))
-		}
-	}
-	var slots []slot
-	for _, ps := range psteps {
-		for _, r := range ps.meas {
-			slots = append(slots, r.sl)
-		}
-		for _, r := range ps.code {
-			slots = append(slots, r.sl)
-		}
-	}
-	cur := h0
-	stage := func(kind, pass int) stageObs {
-		o := stageObs{kind: kind, pass: pass}
-		var iss validator.Issues
-		if kind == 0 {
-			o.panicked, _ = gal.Recover(func() { iss = validator.ValidatorActorsAreProtected{}.Validate(ctx, res.state, res.log) })
-			o.iss = f.obsVAP(iss, rank) // taken now: the returned references may share arrays with the log
-		} else {
-			o.panicked, _ = gal.Recover(func() { iss = validator.ValidatorFinalCoverageIsComplete{}.Validate(ctx, res.state, res.log) })
-			o.iss = f.obsVFC(iss)
-		}
-		o.post = hp.contents()
-		o.changed = !sameHeap(cur, o.post)
-		if o.changed {
-			o.foreign = unexplainedWrite(cur, o.post, slots)
-		}
-		cur = o.post
-		o.snap = f.snapshot(res.log)
-		return o
-	}
-	// the chain of validator.All() over one log, then the range validators again
-	var stages []stageObs
-	stages = append(stages, stage(0, 1), stage(1, 1))
-	var vniIss validator.Issues
-	if vniPanic, _ := gal.Recover(func() { vniIss = validator.ValidatorNoIssues{}.Validate(ctx, res.state, res.log) }); vniPanic {
-		panic("ValidatorNoIssues panicked")
-	}
-	oVNI := obsVNI(vniIss, logIssues)
-	stages = append(stages, stage(0, 2), stage(1, 2))
-
-	sl := make([]string, len(stages))
-	for i, st := range stages {
-		post := "None"
-		if st.changed {
-			post = "(Some " + heapLit(st.post) + ")"
-		}
-		sl[i] = fmt.Sprintf("(%s, %s, %s)", gal.Nat(st.kind), oissuesLit(st.panicked, st.iss), post)
-	}
-	lit := fmt.Sprintf("CHeap %s %s %s %s %s %s", f.artsLit(rank), heapLit(h0), hpstepsLit(psteps), filesLit,
-		gal.List(sl), vniLit(oVNI))
-	nontrivial := len(stages[0].iss) > 0 || len(f.steps) > 1
-	idx := c.Add(f.kind, lit, f.descr(), nontrivial)
-	if f.layKind != "" {
-		c.Count("layout:" + f.layKind)
-	}
-	if smallSpare {
-		c.Count("log-has-small-slice-with-spare-capacity")
-	}
-
-	f.oracle(c, idx, res, stages, snap0, vniIss)
-}
-
 func main() {
-	c := gal.New("C10", header, 170)
+	c := gal.New("C10", header, 190)
 	g := &gen{r: c.Rng}
 	defer func() {
 		// nothing to clean up; kept so that a generator panic is visible
 	}()
+	// second generator for the families added later (sequences of runs, volumes
+	// with several files): derived from the same -seed, so that the flows of the
+	// first generator stay what they were
+	g2 := &gen{r: rand.New(rand.NewSource(c.Seed*6364136223846793005 + 1442695040888963407))}
 	probes(c)
-	for _, f := range g.fixed() {
+	nCase := 0
+	run := func(f *hflow) {
+		f.passes = g2.passSeq(nCase)
+		nCase++
 		runCase(c, f)
+	}
+	for _, f := range g.fixed() {
+		run(f)
 	}
 	n := c.Scale(2300, 12000)
 	for i := 0; i < n; i++ {
-		runCase(c, g.flow(i))
+		run(g.flow(i))
 	}
+	for i, n2 := 0, c.Scale(260, 1700); i < n2; i++ {
+		run(g2.flow2(i))
+	}
+	conditionsReport(c)
 	c.Finish("every flow is executed by the real interpreter, the log is projected with its memory layout (backing arrays of all range slices, " +
 		"spare capacity, shared arrays), the real validators run on that one log one after another (validator.All(), then the range validators again); " +
 		"the slice-level model (Model/ValidatorsHeap.v) must reproduce every issue list (step, kind, non-measured and measured ranges) and the backing arrays after every run, " +
